@@ -89,6 +89,15 @@ def gen_config(rng, tier, opts):
                 "max_iteration": rng.choice([5, 20, 20, 60]) if c["loss"] in ("se", "re") or heavy else rng.choice([20, 60, 200]),
             }
         cases.append(c)
+    if rng.random() < 0.06 and not heavy:
+        # many cheap cases: two-digit case indices (file names case_10_..., ordering, index bookkeeping)
+        cases = []
+        for _ in range(rng.randint(11, 13)):
+            kind = rng.choice(["linear", "plinear"])
+            c = {"estimator": kind, "para": rng.random() < 0.6, "eps_proj_physical": rng.choice([1e-9, 1e-5, 1e-3])}
+            if kind == "plinear":
+                c["mode_proj_order"] = rng.choice(["eq_ineq", "ineq_eq"])
+            cases.append(c)
     sizes = [10, 30, 100, 300, 1000, 3000, 10000]
     nd = sorted(rng.sample(sizes, rng.randint(1, 3)))
     pm = {}
@@ -102,7 +111,7 @@ def gen_config(rng, tier, opts):
         "unknown": [ut, name],
         "noise": [noise, para, para_t],
         "n_sample": rng.randint(1, 3),
-        "n_rep": rng.randint(2, 4 if heavy else 6),
+        "n_rep": rng.choice([1, 2, 2, 3, 4] if heavy else [1, 2, 2, 3, 4, 5, 6]),
         "num_data": nd,
         "cases": cases,
         "seed_data": rng.choice([0, 0, 1, 7, 777, rng.randrange(1 << 31)]),
